@@ -9,7 +9,10 @@
 (* <<next state, result>> pairs (a set because the HybridCache victim is   *)
 (* not determined when scores tie, and because the documentation is silent *)
 (* about re-putting a resident key into a full HybridCache).  No outcome   *)
-(* is "raise": an operation that raises is not explained by the model.     *)
+(* is "raise": an operation that raises is not explained by the model -    *)
+(* with one exception, `putbad`: putting a value that cannot be serialised *)
+(* into a container that serialises may raise, and then NOTHING happened   *)
+(* (the container, incl. the entry the key had, is as before).             *)
 (*                                                                         *)
 (* Values are positive integers, `NoneV` (0) stands for Python's None.     *)
 (* Durations are non-negative integers (the harness uses integral floats). *)
@@ -18,6 +21,8 @@
 EXTENDS Naturals, Integers, Sequences, FiniteSets, TLC
 
 NoneV == 0
+BadV    == 999                \* a value that cannot be serialised (a lock, an open file, a generator)
+RaisedV == -2                 \* result of the one operation that may raise: putting such a value
 Unlimited == 1000000          \* DiskCache(max_size=None)
 
 ---------------------------------------------------------------------------
@@ -94,6 +99,13 @@ PutOutcomes(c, k, v, d) ==
                                 !.front = IF c.lsize > 0 THEN LruPut(c.front, k, v, c.lsize) ELSE c.front]
             IN  {<<DiskEvict(c1), NoneV>>}
 
+(* a value that cannot be serialised: a container that keeps references stores it like any value; one that serialises  *)
+(* (always: disk; shared lru / hybrid) refuses, and the refused put is a no-op                                        *)
+PutBadOutcomes(c, k, d) ==
+    CASE c.kind = "simple" -> PutOutcomes(c, k, BadV, d)
+      [] c.kind = "disk"   -> {<<c, RaisedV>>}
+      [] OTHER             -> PutOutcomes(c, k, BadV, d) \cup {<<c, RaisedV>>}
+
 GetOutcomes(c, k) ==
     CASE c.kind = "lru" ->
             LET g == LruGet([order |-> c.order, val |-> c.val], k)
@@ -120,6 +132,7 @@ ReopenOutcomes(c, max, lsize) == {<<[c EXCEPT !.max = max, !.lsize = lsize, !.fr
 
 Outcomes(c, o) ==
     CASE o.op = "put"    -> PutOutcomes(c, o.k, o.v, o.d)
+      [] o.op = "putbad" -> PutBadOutcomes(c, o.k, o.d)
       [] o.op = "get"    -> GetOutcomes(c, o.k)
       [] o.op = "clear"  -> ClearOutcomes(c)
       [] o.op = "in"     -> {<<c, IF Present(c, o.k) THEN 1 ELSE 0>>}
